@@ -10,7 +10,7 @@ for d in seeded/$GLOB/; do
   cprop=$(/venv/bin/python -c "import json,re,sys; m=json.load(open('$d/meta.json')); c=m.get('caught_by',''); r=re.match(r'\s*(C\d\d)', c); print(r.group(1) if r else '$prop')")
   D=/dev/shm/sweep-$$; rm -rf $D; mkdir -p $D; cp -r /repo/openapi_python_client $D/
   find $D -name __pycache__ -prune -exec rm -rf {} + 2>/dev/null
-  if ! (cd $D && git apply --include="openapi_python_client/*" /verif/$d/patch.diff >/dev/null 2>&1); then echo "$id $cprop PATCH-DOES-NOT-APPLY"; rm -rf $D; continue; fi
+  if ! python3 /verif/tools/applypkg.py /verif/$d/patch.diff $D >/dev/null 2>&1; then echo "$id $cprop PATCH-DOES-NOT-APPLY"; rm -rf $D; continue; fi
   t0=$(date +%s)
   out=$(VERIF_REPO=$D VERIF_BUDGET_S=$BUDGET VERIF_SEED=$SEED VERIF_EVIDENCE_DIR=/dev/shm/verif-sweep-evidence VERIF_REPLAY_DIR=/dev/shm/verif-sweep-replays timeout 900 ./check $cprop --tier quick 2>&1)
   rc=$?
